@@ -374,6 +374,17 @@ func errOrigin(err error) string {
 	return "at:" + strings.Join(parts, ":_")
 }
 
+// seededFull: every key of the universe inserted and persisted+reloaded, then depth d.
+func seededFull(c *world.Config, d int) *world.Config {
+	for k := range c.Keys {
+		c.Seed = append(c.Seed, world.Op{Kind: world.OpIns, K: k, V: 0})
+	}
+	c.Seed = append(c.Seed, world.Op{Kind: world.OpReload})
+	c.MaxDepth = d
+	c.Name = fmt.Sprintf("seeded-full/%s/depth%d", c.Name, d)
+	return c
+}
+
 func C12Configs(thorough bool) []*world.Config {
 	B, M := ref.FormatBinary, ref.FormatMarshaler
 	cc := func(c *world.Config) *world.Config { c.CustomCompare = true; c.Name += "/countingcompare"; return c }
@@ -383,6 +394,9 @@ func C12Configs(thorough bool) []*world.Config {
 		world.LKeyCfg(2, []uint8{0, 2, 0, 1, 0}, 1, B, "none"),
 		world.StructCfg(2, []uint8{0, 1, 0, 2}, B, "none"),
 		world.IntCfg(2, []int{1, 2, 3, 4}, []interface{}{[]int{1}, []int{2, 3}}, []int{}, M, "none"),
+		// height-3 trees (three loads on one descent): seeded starts, the states within one operation of them
+		ChainSeeded(B, 1),
+		seededFull(world.UintCfg(2, urange(0, 8), 1, M, "none"), 1),
 	}
 	if thorough {
 		cs = append(cs, world.UintCfg(2, urange(1, 6), 1, B, "none"), world.UintCfg(2, urange(0, 8), 1, M, "none"), world.UintCfg(3, ulist(1, 2, 3, 4, 6, 9), 1, B, "none"),
